@@ -84,7 +84,7 @@ class C01(Prop):
         while len(cases) < n:
             sep = rng.choice(SEPS)
             nt = rng.choice([1, 1, 2, 3, 4])
-            specs = [T.gen_table(rng, sep=sep, bigint=False) for _ in range(nt)]
+            specs = [T.gen_table(rng, sep=sep, bigint=False, empty_rate=0.05) for _ in range(nt)]
             if not all(self._wf(s, sep) for s in specs):
                 continue
             cases.append({"sep": sep, "tables": specs, "default_sep": rng.random() < 0.3, "path": rng.random() < 0.3})
